@@ -767,13 +767,15 @@ def readonly_probes():
     return P
 
 
-def run_probes(univ, setup):
+def run_probes(univ, setup, only=None):
     """Runs every probe: clean (counting callback invocations), then with a fault at every invocation.
     Returns (failures, stats): failures = list of (probe, k or None, message)."""
     fails = []
     stats = dict(probes=0, fault_runs=0, invocations=0, readonly=0, raised_clean=0)
     for readonly, probes in ((False, mutating_probes()), (True, readonly_probes())):
         for name, fn in probes:
+            if only is not None and name not in only:
+                continue
             w = build_world(univ, setup)
             if not _nodes(w) or len(w.trees) < 2:
                 continue
